@@ -72,11 +72,11 @@ def close_all():
 
 
 def run_real(sql, dialect="ansi", metadata=None, config=None, env=None, silent_mode=False, cyto=False,
-             statements=False, hashseed=None):
+             statements=False, hashseed=None, again=False):
     """run the unmodified library; returns the worker's dict (normalised anonymous subquery names)"""
     r = worker(hashseed).call({"kind": "run", "sql": sql, "dialect": dialect, "metadata": metadata,
                                "config": config, "env": env, "silent_mode": silent_mode, "cyto": cyto,
-                               "statements": statements})
+                               "statements": statements, "again": again})
     if r.get("ok"):
         for k in ("sources", "targets", "intermediates"):
             r[k] = sorted(norm_anon(x) for x in r[k])
